@@ -125,11 +125,11 @@ func init() {
 			rule("R28b", "Transaction.check / isExpire: oriented rejections for chain id, fee bounds and expiry", 8, func(r *Run) {
 				asm := &core.FlowSpec{Assume: orAssume(assumeForks("ForkTxChainIDStrict", "ForkBlockCheck"), func(c *core.Ctx, e ast.Expr) core.Tri {
 					// cfg != nil and maxFee > 0 are the configurations in which the bounds apply
-					if op, ok := core.CmpAtom(c, e, core.IsObj("param:0"), isNilLit); ok && op == token.NEQ {
-						return core.True
+					if t := core.AssumeRel(core.IsObj("param:0"), token.NEQ, isNilLit, core.True)(c, e); t != core.Unknown {
+						return t
 					}
-					if op, ok := core.CmpAtom(c, e, core.IsObj("param:3"), core.IsConstInt(0)); ok && op == token.GTR {
-						return core.True
+					if t := core.AssumeRel(core.IsObj("param:3"), token.GTR, core.IsConstInt(0), core.True)(c, e); t != core.Unknown {
+						return t
 					}
 					return core.Unknown
 				})}
@@ -178,7 +178,7 @@ func init() {
 					// every tx hash+expire sent; every reported duplicate filtered
 					c := f.Ctx()
 					var sendLoop, filterLoop bool
-					ast.Inspect(f.Body(), func(x ast.Node) bool {
+					core.InspectBody(f, func(x ast.Node) bool {
 						rs, ok := x.(*ast.RangeStmt)
 						if !ok || !core.IsObj("param:1")(c, rs.X) {
 							return true
@@ -321,7 +321,7 @@ func sigCoverageRule(id string) core.Rule {
 		c := f.Ctx()
 		// the request that lets transactions skip verification must be keyed by FullHash
 		var reqHashes []ast.Expr
-		ast.Inspect(f.Body(), func(x ast.Node) bool {
+		core.InspectBody(f, func(x ast.Node) bool {
 			as, ok := x.(*ast.AssignStmt)
 			if !ok {
 				return true
@@ -349,7 +349,7 @@ func sigCoverageRule(id string) core.Rule {
 			// callees used in PreExecBlock and assume they report "different": then every
 			// transaction of the block must be appended to the list handed to VerifySignature.
 			var cmps []string
-			ast.Inspect(f.Body(), func(x ast.Node) bool {
+			core.InspectBody(f, func(x ast.Node) bool {
 				call, ok := x.(*ast.CallExpr)
 				if !ok {
 					return true
@@ -360,7 +360,7 @@ func sigCoverageRule(id string) core.Rule {
 				}
 				cc := callee.Ctx()
 				sig, eq := false, false
-				ast.Inspect(callee.Body(), func(y ast.Node) bool {
+				core.InspectBody(callee, func(y ast.Node) bool {
 					if ex, ok := y.(ast.Expr); ok {
 						if core.CallAtom([]string{"bytes.Equal", "google.golang.org/protobuf/proto.Equal", "github.com/golang/protobuf/proto.Equal"})(cc, ex) {
 							eq = true
@@ -420,8 +420,8 @@ func sigCoverageRule(id string) core.Rule {
 		core.Dominated{Fn: "util.PreExecBlock", Spec: &core.FlowSpec{
 			AssumeObj: map[types.Object]core.Tri{f.Param(3): core.True},
 			Assume: func(c *core.Ctx, e ast.Expr) core.Tri {
-				if op, ok := core.CmpAtom(c, e, core.Mentions("types.Block.Height"), core.IsConstInt(0)); ok && op == token.GTR {
-					return core.True
+				if t := core.AssumeRel(core.Mentions("types.Block.Height"), token.GTR, core.IsConstInt(0), core.True)(c, e); t != core.Unknown {
+					return t
 				}
 				return core.Unknown
 			},
